@@ -14,6 +14,7 @@ package c14
 import (
 	"errors"
 	"fmt"
+	"os"
 	"sort"
 	"strings"
 	"sync"
@@ -125,6 +126,7 @@ func mergeCase(t *testing.T, c *MergeCase) {
 		var mu sync.Mutex
 		var parked []*mgate
 		quit := make(chan struct{})
+		_ = quit
 		park := func(kind string, th int) bool {
 			g := &mgate{kind, th, make(chan bool, 1)}
 			mu.Lock()
@@ -239,9 +241,18 @@ func mergeCase(t *testing.T, c *MergeCase) {
 					opts++
 				}
 				if opts == 0 {
+					// callers are blocked inside Merge for ever: the bubble cannot be left
+					// any more, so record the violation and stop the harness here
 					deadlock = true
-					close(quit)
-					break
+					rc := *c
+					rc.Script = events
+					mu.Lock()
+					rs := append([]string(nil), results...)
+					mu.Unlock()
+					run.Case(id, fmt.Sprintf("M %d %s", c.N, strings.Join(events, " ")), "DEADLOCK")
+					run.OracleFail(id, "merge-deadlock", fmt.Sprintf("callers blocked forever after %v (results %v)", events, rs), map[string]any{"kind": "M", "case": rc})
+					run.Finish()
+					os.Exit(0)
 				}
 				k := sched.Intn(opts)
 				if k < len(ps) {
@@ -308,8 +319,6 @@ func mergeCase(t *testing.T, c *MergeCase) {
 		}
 	}
 	if deadlock {
-		run.Case(id, fmt.Sprintf("M %d %s", c.N, strings.Join(events, " ")), "DEADLOCK")
-		run.OracleFail(id, "merge-deadlock", fmt.Sprintf("callers blocked forever after %v (results %v)", events, results), rp)
 		return
 	}
 	run.Case(id, fmt.Sprintf("M %d %s", c.N, strings.Join(events, " ")), obs)
